@@ -20,9 +20,10 @@ GptDims == [count : {"0", "1", "2", "4", "128"},
             type  : {"known", "random"},
             disk  : {"min", "m20", "t3"},
             lss   : {"512", "4096"},
-            prev  : {"blank", "gpt", "mbr"}]
+            prev  : {"blank", "gpt", "mbr"},
+            guid  : {"given", "blank"}]          \* disk and partition GUIDs given, or left for Write to generate
 GptBase == [count |-> "2", idx |-> "dense", spell |-> "startend", name |-> "ascii", attr |-> "zero",
-            type |-> "known", disk |-> "m20", lss |-> "512", prev |-> "blank"]
+            type |-> "known", disk |-> "m20", lss |-> "512", prev |-> "blank", guid |-> "given"]
 MbrDims == [count : {"0", "1", "2", "4"},
             type  : {"x83", "xee", "xff", "x0c"},
             start : {"one", "s2048", "max"},
